@@ -256,6 +256,8 @@ func c12Gen(r *rand.Rand, tier string) []Case {
 		}
 		out = append(out, c)
 	}
+	// fixed case: more holders than a query page, then an export
+	out = append(out, Case{"reset 4", "enable 1", "mint 0 0 1000", "fund 0 0:1000", "crowd 130", "export", "xferamt 0 1 0:100", "export"})
 	// fixed case: one account transferring to itself, named by two spellings of its address, all three messages
 	out = append(out, Case{"reset 4", "mint 0 0 1000", "mint 0 1 500", "fund 0 0:1000,1:500", "xferamt 0 0 0:400 # spell=new", "dump 5",
 		"xferratio 0 0 500000000000000000 # spell=owner", "dump 5", "xferall 0 0 # spell=new", "dump 5", "xferamt 0 1 0:100 # spell=owner", "dump 5"})
@@ -457,6 +459,51 @@ func c12Exec(c Case) (outs []string, fails []Failure, tags []string) {
 				panic(err)
 			}
 			out = "ok"
+		case "crowd":
+			// n further accounts (outside the model's universe) fund the DAO with a few coins each
+			out = "skip"
+			var n int
+			fmt.Sscan(f[1], &n)
+			for j := 0; j < n; j++ {
+				addr := testAddr(3000 + j)
+				coins := sdk.NewCoins(sdk.NewCoin(c12Denoms[0], sdkmath.NewInt(int64(3+j%7))))
+				if err := app.BankKeeper.MintCoins(ctx, coinomicstypes.ModuleName, coins); err != nil {
+					panic(err)
+				}
+				if err := app.BankKeeper.SendCoinsFromModuleToAccount(ctx, coinomicstypes.ModuleName, addr, coins); err != nil {
+					panic(err)
+				}
+				if err := dk.Fund(ctx, coins, addr); err != nil {
+					panic(err)
+				}
+			}
+			tags = append(tags, "many-holders")
+		case "export":
+			// the exported ledger adds up like the live one: Σ exported balances = exported total = recorded total, and the
+			// exported holders are exactly the accounts with a balance
+			out = "skip"
+			gs := dk.ExportGenesis(ctx)
+			sum := sdk.NewCoins()
+			for _, b := range gs.Balances {
+				sum = sum.Add(b.Coins...)
+			}
+			l := read(ctx)
+			live := 0
+			for _, m := range l.bal {
+				for _, v := range m {
+					if v.Sign() > 0 {
+						live++
+						break
+					}
+				}
+			}
+			tags = append(tags, "export-checked")
+			if !sum.IsEqual(gs.TotalBalance) || !gs.TotalBalance.IsEqual(dk.GetTotalBalance(ctx)) {
+				fails = append(fails, Failure{Signature: "C12:export:sum-ne-total", What: fmt.Sprintf("exported genesis: Σ of the %d exported balances is %s, the exported total %s, the recorded total %s", len(gs.Balances), sum, gs.TotalBalance, dk.GetTotalBalance(ctx)), Case: c[:i+1]})
+			}
+			if len(gs.Balances) != live {
+				fails = append(fails, Failure{Signature: "C12:export:holders", What: fmt.Sprintf("exported genesis lists %d holders, %d accounts hold a balance", len(gs.Balances), live), Case: c[:i+1]})
+			}
 		case "enable":
 			_ = dk.SetParams(ctx, ucdaotypes.Params{EnableDao: f[1] == "1"})
 			out = "ok"
